@@ -170,6 +170,30 @@ fn judge_curve2(case: &Case, l: &mut Local) {
             }
         }
     }
+    // signed deviations of measured points from the curve are invariant, also for points a fraction of a micron off a
+    // corner (not along either edge normal) on a part that sits a thousand units from the origin
+    {
+        use engeom::metrology::line_profiles::point_curve2_deviation;
+        let mut qs: Vec<Point2> = queries2();
+        for a in c.points().iter() {
+            qs.push(a + Vector2::new(0.6, 0.8) * 2e-7);
+            qs.push(a + Vector2::new(-0.8, 0.6) * 3e-5);
+        }
+        let tdev = 1e-11 * (1.0 + iso.translation.vector.norm()) + 1e-12;
+        let mut worst = 0.0f64;
+        let mut at = Point2::origin();
+        for q in qs.iter() {
+            let qt = iso * q;
+            let d0 = point_curve2_deviation(&c.at_closest_to_point(q), q).deviation;
+            let d1 = point_curve2_deviation(&ct.at_closest_to_point(&qt), &qt).deviation;
+            // the magnitude is the distance in any frame; the sign is only defined off the curve and off its corners' bisectors
+            if (d0.abs() - d1.abs()).abs() > worst {
+                worst = (d0.abs() - d1.abs()).abs();
+                at = *q;
+            }
+        }
+        l.check("curve2: the magnitude of a point's deviation from the curve is invariant", "", worst <= tdev, mk, || format!("q {:?}: magnitudes differ by {:e} (allowed {:e})", at, worst, tdev));
+    }
     // construction from surface points: the vertex order follows the majority of the given normals, in any frame
     {
         let v = c.points().to_vec();
